@@ -26,7 +26,7 @@ add("C04", "fault_enumeration",
     "Cuts are the library's yield hooks (all outside its locks); orders between hooks are reached only by the random delays of C05. Liveness is restated as 'told within 2 wait() calls'.",
     "runtime monitoring with scripted schedules: thread parked at yield hooks inside the check-then-act window", "3/C04", "eos-scripts")
 add("C05", "exploration",
-    "Generated graph programs over ~25 deterministic library blocks (chains of 0-6 stages, tee/merge diamonds with bounded skew, rate changers, packet stages HdlcDeframer->VecToStream; finite VectorSource of 0..5 stream capacities, 1-3 repetitions; streams of 1,2,4,16 pages or default; CollectSink or a VectorSink watched by a second thread) run on the real MTGraph with every block wrapped in a probe, in forward/reverse/random add order, with seeded PCT-style delays injected at yield hooks (incl. >100 ms sleeps so wait time-outs fire). Termination is decided by a logical stuck rule (no data event and no block exit while every live block was called 4 more times), the sink is compared bit-for-bit with the harness's own sequential executor on default streams, and block drop / thread count are checked after run(). Block threads that all sleep without a single wake-up for 5 s while no data moves (kernel counters, see C04) are reported as blocked forever.",
+    "Generated graph programs over ~25 deterministic library blocks (chains of 0-6 stages, tee/merge diamonds with bounded skew, merges with a second independent source of another length, rate changers, packet stages HdlcDeframer->VecToStream; finite VectorSource of 0..5 stream capacities, 1-3 repetitions; streams of 1,2,4,16 pages or default; CollectSink or a VectorSink watched by a second thread) run on the real MTGraph with every block wrapped in a probe, in forward/reverse/random add order, with seeded PCT-style delays injected at yield hooks (incl. >100 ms sleeps so wait time-outs fire). Termination is decided by a logical stuck rule (no data event and no block exit while every live block was called 4 more times), the sink is compared bit-for-bit with the harness's own sequential executor on default streams, and block drop / thread count are checked after run(). Block threads that all sleep without a single wake-up for 5 s while no data moves (kernel counters, see C04) are reported as blocked forever.",
     "Decides only the interleavings produced on this x86-64 machine. The reference executor is harness code that looks at data movement, not verdicts. Diamonds are generated with equal rates and skew <= capacity/8 (an unbalanced diamond deadlocks by dataflow construction).",
     "runtime monitoring: differential oracle vs sequential reference under injected schedule noise + logical stuck detector", "3/C05", "graph-programs")
 add("C06", "exploration",
